@@ -1799,6 +1799,18 @@ fn verify_nsec(
         );
     };
 
+    // No NSEC matches the query name, but the next name of the NSEC that covers it lies below the
+    // query name: the query name exists as an empty non-terminal, which has no RRsets and
+    // therefore no NSEC of its own (RFC 4035 3.1.3.1, RFC 4592 2.2.2). That is a complete no data
+    // proof.
+    if response_code == ResponseCode::NoError
+        && !have_answer
+        && covering_nsec_data.next_domain_name() != &query.name
+        && query.name.zone_of(covering_nsec_data.next_domain_name())
+    {
+        return nsec1_yield(Proof::Secure, "no direct match, empty non-terminal");
+    }
+
     // Identify the names that exist (including names of empty non terminals) that are parents of
     // the query name. Pick the longest such name, because wildcard synthesis would start looking
     // for a wildcard record there.
